@@ -1,4 +1,329 @@
-import Cppcms.C20.Model
-import Cppcms.C20.Spec
+import Cppcms.C20.Lemmas
+import Cppcms.C20.LemmasMapper
+import Cppcms.C20.Example
+/-!
+# C20 — property theorems
+
+"For any set of mounted applications and handlers, a request is routed to the first mount point
+and then the first handler, in registration order, whose host/script/path patterns and HTTP method
+match the **entire** respective string — never a mere prefix or substring — with exactly the
+captured groups as arguments, and to none (404) when nothing matches.  A URL produced by the URL
+mapper for a key and parameters, when routed from the root application, reaches the handler
+registered for that key with those same parameters, across any depth of nested applications."
+
+All statements are about the model instantiated with `Gen.quirks`, i.e. with the facts the
+translator extracted from the **current** source (`Gen.lean`): if `option::matches` goes back to
+`path.c_str()`, or a `regex::match` overload loses its span test, or the anchored pattern changes,
+`wrapper_pins_source` and everything built on it stop type-checking.
+
+The regex engine is the parameter `rx : Rx` everywhere.  Theorems that say "whole string" need no
+hypothesis on it (the wrapper's own span test does the work); theorems that talk about the
+*contents* of groups assume `RxSound rx`.
+
+History: with `Gen.pathCStr = true` (source before /repo commit 3937457) the statements below held
+only for NUL-free paths; `d13_counterexample_before_fix` keeps the witness.
+-/
 namespace Cppcms.C20.Props
+open Cppcms Cppcms.C20
+
+/-! ## what the source says (regenerated each run) -/
+
+/-- `regex::assign` compiles `"(?:" + pattern + ")\z"`; both `regex::match` overloads run it with
+`PCRE_ANCHORED` at offset 0 and answer `false` unless the reported match is `[0, end-begin)`;
+`option::matches` and `mount_point::match(std::string…)` pass ranges (not C strings); literal
+methods are exactly the all-`A-Z` strings. -/
+theorem wrapper_pins_source :
+    Gen.anchoredPre = [40, 63, 58] ∧ Gen.anchoredPost = [41, 92, 122] ∧
+    Gen.execAnchoredMarks = true ∧ Gen.execAnchoredNoMarks = true ∧
+    Gen.quirks.Fixed ∧ MethodClassAZ := by
+  refine ⟨by decide, by decide, by decide, by decide, ⟨rfl, rfl, ?_, ?_⟩, ?_⟩
+  · intro a b n; simp [Gen.quirks, Gen.spanRejectMarks]
+  · intro a b n; simp [Gen.quirks, Gen.spanRejectNoMarks]
+  · intro c; simp [Gen.methodCharLiteral]
+
+theorem gen_fixed : Gen.quirks.Fixed := wrapper_pins_source.2.2.2.2.1
+theorem gen_method : MethodClassAZ := wrapper_pins_source.2.2.2.2.2
+
+/-! ## whole string, never a prefix -/
+
+/-- **For every engine**: when `booster::regex_match` answers true — with or without a `cmatch` —
+the engine's reported match is exactly `[0, |s|)`.  An engine answer that covers only a prefix
+(`(*ACCEPT)`, `\K`, a `$` before a trailing newline, …) is refused by the wrapper. -/
+theorem full_match_only (rx : Rx) (r : Regex) (s : Bytes) :
+    (∀ m, rxMatchMarks rx Gen.quirks r s = some m →
+        ∃ gs, rx.exec r.pat r.icase s = some (((0 : Int), (s.length : Int)), gs) ∧ m.subj = s) ∧
+    (rxMatch rx Gen.quirks r s = true →
+        ∃ gs, rx.exec r.pat r.icase s = some (((0 : Int), (s.length : Int)), gs)) := by
+  constructor
+  · intro m hm
+    rw [rxMatchMarks_eq rx gen_fixed] at hm
+    simp only [Option.map_eq_some_iff] at hm
+    obtain ⟨raw, hw, rfl⟩ := hm
+    obtain ⟨he, h0⟩ := whole_eq_some.1 hw
+    exact ⟨raw.2, by rw [he, ← h0], rfl⟩
+  · intro hm
+    rw [rxMatch_eq rx gen_fixed, Option.isSome_iff_exists] at hm
+    obtain ⟨raw, hw⟩ := hm
+    obtain ⟨he, h0⟩ := whole_eq_some.1 hw
+    exact ⟨raw.2, by rw [he, ← h0]⟩
+
+/-- `option::matches` succeeds iff the method filter holds and the engine matched the **entire**
+path — for every engine, every path (embedded NULs and newlines included) and every method. -/
+theorem matches_is_whole_path (rx : Rx) (re : Regex) (filter req : Option Bytes) (path : Bytes) :
+    (optMatches rx Gen.quirks re filter req path).isSome =
+      (Spec.methodOk rx filter req && (Spec.whole rx re path).isSome) := by
+  rw [optMatches_eq rx gen_fixed gen_method]
+  cases Spec.methodOk rx filter req <;> simp
+
+/-- Under `RxSound`: the `cmatch` a handler receives is about the whole path, and its group `n`
+(for every `n`, also negative or too large) is the engine's group `n`; a participating group with
+reported span `(a,b)` is literally `path[a..b)`. -/
+theorem groups_exact (rx : Rx) (hs : RxSound rx) (re : Regex) (filter req : Option Bytes) (path : Bytes) (m : CMatch)
+    (h : optMatches rx Gen.quirks re filter req path = some m) :
+    m.subj = path ∧ ∃ raw, Spec.whole rx re path = some raw ∧ (∀ n, m.get n = Spec.group path raw n) ∧
+      ∀ (n : Nat) (a b : Int), (raw.1 :: raw.2)[n]? = some (a, b) → a ≠ -1 →
+        ∃ pre post, path = pre ++ sub path a b ++ post ∧ (pre.length : Int) = a ∧ ((sub path a b).length : Int) = b - a := by
+  rw [optMatches_eq rx gen_fixed gen_method] at h
+  split at h
+  · simp only [Option.map_eq_some_iff] at h
+    obtain ⟨raw, hw, rfl⟩ := h
+    refine ⟨rfl, raw, hw, fun n => cmatch_get_eq rx re path raw (arity_of_whole hs hw) n, ?_⟩
+    intro n a b hn ha
+    have hsp := hs.spans _ _ _ _ (whole_eq_some.1 hw).1
+    have hok : spanOk path.length (a, b) := by
+      cases n with
+      | zero => simp at hn; rw [← hn]; exact hsp.1
+      | succ k => simp at hn; exact hsp.2 _ (List.mem_of_getElem? hn)
+    rcases hok with h1 | ⟨h0, hab, hbl⟩
+    · simp at h1; exact absurd h1.1 ha
+    · simp only at h0 hab hbl
+      refine ⟨path.take a.toNat, path.drop b.toNat, ?_, ?_, ?_⟩
+      · unfold sub
+        have h1 : (path.drop a.toNat).take (b.toNat - a.toNat) ++ path.drop b.toNat = path.drop a.toNat := by
+          have : path.drop b.toNat = (path.drop a.toNat).drop (b.toNat - a.toNat) := by
+            rw [List.drop_drop]; congr 1; omega
+          rw [this, List.take_append_drop]
+        rw [List.append_assoc, h1, List.take_append_drop]
+      · simp only [List.length_take]; omega
+      · unfold sub; simp only [List.length_take, List.length_drop]; omega
+  · cases h
+
+/-! ## first match, in registration order -/
+
+/-- `url_dispatcher::dispatch` = the **first** option, in registration order, whose
+`option::dispatch` returns true; what was observed before it are only generic handlers that ran and
+declined; if there is none the result is `false` (→ 404).  Any engine. -/
+theorem dispatch_is_first_match (rx : Rx) (req : Option Bytes) (o : Opts) (url : Bytes) :
+    dispatch rx Gen.quirks req o url =
+      match o.level.find? (fun e => (entryAttempt rx Gen.quirks req url e).isFire) with
+      | none => (false, o.level.filterMap fun e => (entryAttempt rx Gen.quirks req url e).rejectEv)
+      | some e =>
+        (true, ((o.level.takeWhile fun e => !(entryAttempt rx Gen.quirks req url e).isFire).filterMap
+                  fun e => (entryAttempt rx Gen.quirks req url e).rejectEv)
+               ++ (entryAttempt rx Gen.quirks req url e).fireEvs) := by
+  rw [dispatch_eq_run, runAttempts_find]
+  simp only [List.find?_map, List.takeWhile_map, List.filterMap_map, Function.comp_def]
+  cases o.level.find? (fun e => (entryAttempt rx Gen.quirks req url e).isFire) <;> rfl
+
+/-- **Model = specification** for application trees of any depth: the dispatcher does what
+`Spec.route` says — first option in registration order whose method filter holds and whose pattern
+matches the entire URL, called with exactly the captured groups; a mounted application gets the
+selected group and answers 404 itself. -/
+theorem dispatch_eq_spec (rx : Rx) (hs : RxSound rx) (req : Option Bytes) (o : Opts) (url : Bytes) :
+    dispatch rx Gen.quirks req o url = Spec.route rx req (o.depth + 1) o url :=
+  dispatch_eq_route rx gen_fixed gen_method hs req (o.depth + 1) o url (by omega)
+
+/-- Nested applications, any depth: handler `id` runs with `args` **iff** the routing relation
+`Spec.Reaches` holds — a chain of mounts, each the first taking option of its level, each entered
+with the selected group, ending in a level whose first taking option is that handler. -/
+theorem mount_then_dispatch (rx : Rx) (hs : RxSound rx) (req : Option Bytes) (o : Opts) (url : Bytes)
+    (id : Nat) (args : List (Option Bytes)) :
+    Event.ran id args ∈ (dispatch rx Gen.quirks req o url).2 ↔ Spec.Reaches rx req o url id args := by
+  rw [dispatch_eq_spec rx hs]
+  exact ran_mem_route_iff rx req id args (o.depth + 1) o url (by omega)
+
+/-- Every argument any handler, at any depth, is given is a contiguous substring of the request path. -/
+theorem args_infix_of_request (rx : Rx) (hs : RxSound rx) (req : Option Bytes) (o : Opts) (url : Bytes)
+    (ev : Event) (hev : ev ∈ (dispatch rx Gen.quirks req o url).2) (x : Bytes) (hx : some x ∈ ev.args) :
+    x <:+: url := by
+  rw [dispatch_eq_spec rx hs] at hev
+  exact args_infix_route rx req _ o url ev hev x hx
+
+/-! ## mount points and the pool -/
+
+/-- `mount_point::match` = all configured patterns match their whole strings; the result is the
+selected string or its group.  The `std::string` overload is about the strings as given (NULs
+included), the `char const*` overload about the C strings. -/
+theorem mpMatch_eq_spec (rx : Rx) (hs : RxSound rx) (mp : MountPoint) (h s p : Bytes) :
+    mpMatchStr rx Gen.quirks mp h s p = Spec.mpMatch rx mp h s p ∧
+    mpMatchPtr rx Gen.quirks mp h s p = Spec.mpMatch rx mp (cstr h) (cstr s) (cstr p) := by
+  constructor
+  · unfold mpMatchStr; rw [gen_fixed.mount]; simp [mpMatchC_eq rx gen_fixed hs]
+  · unfold mpMatchPtr; exact mpMatchC_eq rx gen_fixed hs _ _ _ _
+
+/-- `applications_pool::get_application_specific_pool` returns the **first** mount point, in mount
+order, that matches (with its index and selected string); none → 404. -/
+theorem pool_is_first_match (rx : Rx) (hs : RxSound rx) (mps : List MountPoint) (h s p : Bytes) :
+    poolFind rx Gen.quirks h s p mps 0 = Spec.poolFind rx mps (cstr h) (cstr s) (cstr p) := by
+  rw [poolFind_eq_aux]
+  unfold Spec.poolFind
+  congr 1
+  funext ⟨mp, j⟩
+  simp [(mpMatch_eq_spec rx hs mp h s p).2]
+
+theorem poolRoute_eq_spec (rx : Rx) (hs : RxSound rx) (apps : List (MountPoint × Opts)) (meth h s p : Bytes) :
+    poolRoute rx Gen.quirks apps meth h s p = Spec.poolRoute rx apps meth (cstr h) (cstr s) (cstr p) := by
+  unfold poolRoute Spec.poolRoute
+  rw [pool_is_first_match rx hs]
+  cases Spec.poolFind rx (apps.map (·.1)) (cstr h) (cstr s) (cstr p) with
+  | none => rfl
+  | some im => obtain ⟨i, m⟩ := im; simp [appMain_eq_main rx gen_fixed gen_method hs]
+
+/-! ## mapper templates -/
+
+/-- a template without braces is one literal part, arity 0 -/
+theorem parseTpl_literal (s : Bytes) (h : BraceFree s) : parseTpl s false = .ok (⟨[s], [], []⟩, 0) := by
+  simpa [tplSrc] using parseTpl_src [] (by intro x hx; cases hx) s h
+
+/-- `l₁{d₁}l₂{d₂}…tail` (digits 1..9, brace-free literals) parses to exactly those parts and indexes;
+the arity is the largest index -/
+theorem parseTpl_param (segs : List (Bytes × Nat)) (hs : SegsOk segs) (tail : Bytes) (ht : BraceFree tail) :
+    parseTpl (tplSrc segs tail) false =
+      .ok (⟨segs.map (·.1) ++ [tail], segs.map (fun ld => Int.ofNat ld.2), segs.map (fun _ => [])⟩,
+           (segs.foldl (fun m ld => max (Int.ofNat ld.2) m) (0 : Int)).toNat) :=
+  parseTpl_src segs hs tail ht
+
+/-- malformed templates are rejected with the specific error, whatever follows -/
+theorem parseTpl_errors (a : Bytes) (ha : BraceFree a) (rest : Bytes) (isApp : Bool) :
+    parseTpl (a ++ [UInt8.ofNat Gen.tplOpen, UInt8.ofNat Gen.tplClose] ++ rest) isApp = .error .emptyIndex ∧
+    parseTpl (a ++ [UInt8.ofNat Gen.tplOpen, 48, UInt8.ofNat Gen.tplClose] ++ rest) isApp = .error .zeroIndex ∧
+    parseTpl (a ++ [UInt8.ofNat Gen.tplClose] ++ rest) isApp = .error .strayClose ∧
+    ((∀ c ∈ rest, c.toNat ≠ Gen.tplClose) → parseTpl (a ++ [UInt8.ofNat Gen.tplOpen] ++ rest) isApp = .error .unclosed) ∧
+    (∀ segs tail, SegsOk segs → BraceFree tail → segs.foldl (fun m ld => max (Int.ofNat ld.2) m) (0 : Int) ≠ 1 →
+        parseTpl (tplSrc segs tail) true = .error .appArity) :=
+  ⟨parseTpl_empty_index a ha rest isApp, parseTpl_zero_index a ha rest isApp, parseTpl_stray_close a ha rest isApp,
+   fun h => parseTpl_unclosed a ha rest h isApp, fun segs tail hs ht hm => parseTpl_app_arity segs hs tail ht hm⟩
+
+/-- parsing a template and instantiating it substitutes exactly the parameters: `{d}` ↦ `params[d-1]`,
+literal text unchanged, for every template of the positional fragment and all parameter values -/
+theorem writeTpl_parse_roundtrip (segs : List (Bytes × Nat)) (hs : SegsOk segs) (tail : Bytes) (ht : BraceFree tail)
+    (params : List Bytes) (hb : ∀ ld ∈ segs, ld.2 ≤ params.length) (helpers overrides : List (Bytes × Bytes)) :
+    ∃ t n, parseTpl (tplSrc segs tail) false = .ok (t, n) ∧
+      writeTpl t params helpers overrides = .ok (tplInst params segs tail) :=
+  ⟨_, _, parseTpl_src segs hs tail ht,
+   writeTpl_src params helpers overrides segs (fun ld h => ⟨(hs ld h).2.1, hb ld h⟩) tail⟩
+
+/-! ## URL generation and routing agree -/
+
+/-- **mapper/dispatcher consistency, any depth.**  Let `key` (any key form: relative, `a/b`, `..`,
+absolute, with keywords) resolve to mapper `p'`, entry `rk`, keywords `kws`.  If the site is
+`Consistent` along the chain from `p'` up to the root (a decidable, purely local check per level),
+then `url_mapper::map` produces `root ++ u`, and routing `u` from the root application runs exactly
+the handler `id` with exactly `args`. -/
+theorem mapper_dispatch_consistent (rx : Rx) (hs : RxSound rx) (req : Option Bytes) (ctx : MCtx) (p p' : MPos) (key rk : Bytes)
+    (kws : List Bytes) (params : List Bytes) (cur : Opts) (anc : List Opts) (id : Nat) (args : List (Option Bytes))
+    (hkey : mapperForKey p (cstr key) = .ok (p', rk, kws)) (hk : kws.length ≤ params.length)
+    (hc : Consistent rx req ctx (mkOverrides kws (params.take kws.length)) p' cur anc rk (params.drop kws.length) id args = true) :
+    ∃ u, mapUrl ctx p key params = .ok (ctx.root ++ u) ∧
+      appMain rx Gen.quirks req (rootOf cur anc) u = [.ran id args] := by
+  obtain ⟨u, hmap, hmain⟩ := consistent_spec rx req ctx _ p' cur anc rk _ id args hc
+  refine ⟨u, ?_, ?_⟩
+  · unfold mapUrl
+    simp only [hkey]
+    have : ¬ params.length < kws.length := by omega
+    simp [this, hmap]
+  · rw [appMain_eq_main rx gen_fixed gen_method hs]; exact hmain
+
+/-! ## non-vacuity: a concrete engine and a depth-3 site meeting every hypothesis -/
+
+section Examples
+open Ex
+
+theorem exRx_sound : RxSound exRx := by
+  have htab : ∀ e ∈ exTable, (spanOk e.2.1.length e.2.2.1 ∧ ∀ sp ∈ e.2.2.2, spanOk e.2.1.length sp) ∧
+      e.2.2.2.length ≤ ((exCounts.find? (·.1 == e.1)).map (·.2)).getD 0 := by decide
+  have hfind : ∀ pat s r, exRx.exec pat false s = some r → (pat, s, r) ∈ exTable := by
+    intro pat s r h
+    simp only [exRx, Option.map_eq_some_iff] at h
+    obtain ⟨e, he, rfl⟩ := h
+    have hm := List.mem_of_find?_eq_some he
+    have hp := List.find?_some he
+    simp only [Bool.and_eq_true, beq_iff_eq] at hp
+    obtain ⟨h1, h2⟩ := hp
+    obtain ⟨a, b, c⟩ := e
+    simp only at h1 h2
+    subst h1; subst h2
+    exact hm
+  constructor
+  · intro pat ic s r h
+    exact (htab _ (hfind pat s r h)).1
+  · intro pat ic s r h
+    exact (htab _ (hfind pat s r h)).2
+
+/-- the engine reports a match of `/about` on `/aboutX` that covers only a prefix (as `(*ACCEPT)` would):
+the wrapper refuses it, in both overloads -/
+example : exRx.exec exPat_about false aboutX = some ((0, 6), []) ∧
+    rxMatchMarks exRx Gen.quirks (re exPat_about) aboutX = none ∧ rxMatch exRx Gen.quirks (re exPat_about) aboutX = false := by
+  decide
+
+/-- `groups_exact` / `matches_is_whole_path` on a real match with two groups -/
+example : (optMatches exRx Gen.quirks (re exPat_profile) none none [47, 112, 114, 111, 102, 105, 108, 101, 47, 98, 111, 98, 47, 55]).map
+    (fun m => (m.str 1, m.str 2, m.get 3, m.get (-1))) = some (bob, seven, none, none) := by decide
+
+/-- the depth-3 site is `Consistent` for key `profile` of the innermost application -/
+theorem ex_consistent : Consistent exRx (some GET) ctx [] usersPos usersOpts [blogOpts, rootOpts] kProfile [bob, seven] 3
+    [some bob, some seven] = true := by decide
+
+/-- … so the theorem applies: the mapped URL is `/root/blog/u/profile/bob/7` and it is routed, from
+the root through two mounted applications, to handler 3 with `("bob","7")` -/
+example : mapUrl ctx usersPos kProfile [bob, seven] = .ok (ctx.root ++ profileUrl) ∧
+    appMain exRx Gen.quirks (some GET) rootOpts profileUrl = [.ran 3 [some bob, some seven]] := by
+  obtain ⟨u, h1, h2⟩ := mapper_dispatch_consistent exRx exRx_sound (some GET) ctx usersPos usersPos kProfile kProfile [] [bob, seven]
+    usersOpts [blogOpts, rootOpts] 3 [some bob, some seven] (by decide) (by decide) ex_consistent
+  have hu : u = profileUrl := by
+    have : mapUrl ctx usersPos kProfile [bob, seven] = .ok (ctx.root ++ profileUrl) := by decide
+    rw [this] at h1
+    exact (List.append_cancel_left (Except.ok.inj h1)).symm
+  subst hu
+  exact ⟨h1, h2⟩
+
+/-- `mount_then_dispatch`: the routing relation for that request, spelled out -/
+example : Spec.Reaches exRx (some GET) rootOpts profileUrl 3 [some bob, some seven] :=
+  (mount_then_dispatch exRx exRx_sound (some GET) rootOpts profileUrl 3 [some bob, some seven]).1 (by decide)
+
+/-- first match: `/blog/post/42` goes to handler 2 (not to the later `users` mount), `/nope` to nobody -/
+example : dispatch exRx Gen.quirks none rootOpts [47, 98, 108, 111, 103, 47, 112, 111, 115, 116, 47, 52, 50] =
+    (true, [.ran 2 [some [52, 50]]]) ∧ dispatch exRx Gen.quirks none rootOpts [47, 110, 111, 112, 101] = (false, []) := by decide
+
+/-- templates: `/profile/{1}/{2}` is in the positional fragment -/
+example : SegsOk [([47, 112, 114, 111, 102, 105, 108, 101, 47], 1), ([47], 2)] ∧ BraceFree ([] : Bytes) ∧
+    tplSrc [([47, 112, 114, 111, 102, 105, 108, 101, 47], 1), ([47], 2)] [] =
+      [47, 112, 114, 111, 102, 105, 108, 101, 47, 123, 49, 125, 47, 123, 50, 125] := by
+  refine ⟨?_, ?_, by decide⟩
+  · intro ld h
+    simp only [List.mem_cons, List.mem_nil_iff, or_false] at h
+    rcases h with rfl | rfl
+    · exact ⟨by intro c hc; revert c; decide, by decide, by decide⟩
+    · exact ⟨by intro c hc; revert c; decide, by decide, by decide⟩
+  · intro c hc; cases hc
+
+/-- a mount point on path-info with a host pattern and group selection -/
+example : mpMatchStr exRx Gen.quirks ⟨none, none, some (re exPat_blogm), 1, true⟩ [] [] profileUrl =
+    some [47, 117, 47, 112, 114, 111, 102, 105, 108, 101, 47, 98, 111, 98, 47, 55] := by decide
+
+end Examples
+
+/-! ## the defect that was fixed (kept as a regression witness) -/
+
+/-- D13: with `option::matches` passing `path.c_str()` (the source before /repo commit 3937457),
+`dispatch("ab\0cd")` ran the handler registered for `ab` although the engine, asked about the
+whole path, says no: the full-strength statement was false of that code. -/
+theorem d13_counterexample_before_fix :
+    let rx : Rx := { info := fun _ _ => some 0,
+                     exec := fun _ _ s => if s = [97, 98] then some ((0, 2), []) else none }
+    let qOld : Quirks := { Gen.quirks with pathCStr := true }
+    let o : Opts := .leaf ⟨1, ⟨[97, 98], false⟩, none, .h0⟩ .nil
+    dispatch rx qOld none o [97, 98, 0, 99, 100] = (true, [.ran 1 []]) ∧
+    Spec.route rx none 1 o [97, 98, 0, 99, 100] = (false, []) := by decide
+
 end Cppcms.C20.Props
